@@ -1,5 +1,7 @@
 (* Re-tokenising the rendered items: the tokenizer model reads back exactly the emitted items,
-   adjacent texts merged (for item lists without comments and raw-text elements). *)
+   adjacent texts merged (for item lists without raw-text elements).  A comment is read back with the
+   data comment_reread d: its escaped body, newline- and NUL-normalised and unescaped by the
+   tokenizer (equal to d when d has no CR and no NUL). *)
 From Coq Require Import List NArith Bool Lia.
 Import ListNotations.
 From BM Require Import Bytes Utf8 Strings Escape Tokenizer Policy Loop EscapeProofs RoundTrip.
@@ -14,8 +16,12 @@ Definition item_ok (it : item) : Prop :=
   | ISpace | IText _ => True
   | ITag (TStart n a) | ITag (TSelf n a) => name_ok n /\ Forall (fun kv => key_ok (fst kv)) a /\ is_raw_name n = false
   | ITag (TEnd n) => name_ok n
+  | IComment _ => True
   | _ => False
   end.
+
+(* what the tokenizer makes of a comment written with data d *)
+Definition comment_reread (d : bytes) : bytes := unescape false (conv_nul (conv_nl (escape_comment d))).
 
 Fixpoint segs (its : list item) (cur : bytes) : list seg :=
   match its with
@@ -25,6 +31,7 @@ Fixpoint segs (its : list item) (cur : bytes) : list seg :=
   | ITag (TStart n a) :: r => flushS cur (STag n (map esc_attr a) CloseStart :: segs r [])
   | ITag (TSelf n a) :: r => flushS cur (STag n (map esc_attr a) CloseSelf :: segs r [])
   | ITag (TEnd n) :: r => flushS cur (SEnd n :: segs r [])
+  | IComment d :: r => flushS cur (SComment d :: segs r [])
   | _ :: r => segs r cur
   end.
 
@@ -35,6 +42,7 @@ Fixpoint coalesce (its : list item) (cur : bytes) : list token :=
   | IText d :: r => coalesce r (cur ++ d)
   | ISpace :: r => coalesce r (cur ++ [32])
   | ITag t :: r => flushT cur (t :: coalesce r [])
+  | IComment d :: r => flushT cur (TComment (comment_reread d) :: coalesce r [])
   | _ :: r => coalesce r cur
   end.
 
@@ -58,6 +66,8 @@ Proof.
       cbn [app]. unfold raw_tag, render1. rewrite tag_string_raw. cbn [close_bytes].
       repeat (first [rewrite <- app_assoc | progress cbn [app]]). reflexivity.
     + rewrite IH by auto. rewrite <- app_assoc. reflexivity.
+    + rewrite render_flushS. cbn [render_segs fold_right seg_bytes]. fold (render_segs (segs its [])). rewrite IH by auto.
+      cbn [app]. reflexivity.
 Qed.
 
 Lemma esc_attrs_ok a : Forall (fun kv => key_ok (fst kv)) a -> Forall rattr_ok (map esc_attr a).
@@ -90,6 +100,7 @@ Proof.
     + apply Hflush; [exact Hit | reflexivity].
     + destruct Hit as (Hn & Hk & Hr). apply Hflush; [|reflexivity]. split; [exact Hn | split; [apply esc_attrs_ok; exact Hk | exact Hr]].
     + apply IH; auto. apply no_lt_app; auto. apply escape_no_lt.
+    + apply Hflush; [exact Logic.I | reflexivity].
 Qed.
 
 Lemma key_no_upper k : key_ok k -> Forall (fun c => is_upper c = false) k.
@@ -124,6 +135,7 @@ Proof.
     + destruct Hit as (Hn & Hk & Hr). rewrite decode_flush. cbn [map rtok_of decode]. rewrite dec_esc_attrs by exact Hk.
       change (@nil N) with (escape []). rewrite IH by auto. reflexivity.
     + rewrite <- escape_app. apply IH; auto.
+    + rewrite decode_flush. cbn [map rtok_of decode]. change (@nil N) with (escape []). rewrite IH by auto. reflexivity.
 Qed.
 
 (* the tokenizer reads the rendered items back exactly *)
